@@ -1,5 +1,6 @@
 import PoaVerif.Lemmas.Basic
 import PoaVerif.Facts
+import PoaVerif.Props.C06
 /-
   C05 — per-block 30 % limit on voting-power change for safe SetPower.
 -/
@@ -185,5 +186,23 @@ theorem c05_no_reset_genesis (s s' : App) (hh : s.height ≤ 1) (hu : s.updated 
     an updated validator twice.  The machine-checked witness (four validators of power 10, one set to 11:
     CometBFT's total is 41, the total cached by the next BeginBlocker is 52) is `Witness.D8` (generated step
     certificates, each checked by `decide`), stated in PoaVerif/Props/C05W.lean. -/
+
+/-! "… and is not consumed by transactions that fail" -/
+
+/-- **C05f**: a transaction that fails — at the ante handler, on a wrong sequence, at any message position (a
+    successful SetPower followed by a failing message included), by panic — leaves the running sum and the cached
+    total exactly as they were, so the next safe SetPower is judged as if the failed one had never been sent -/
+theorem c05_failed_not_consumed (env : Env) (s : App) (incs : List (Signer × Nat)) (tx : Tx)
+    (h : (runTx env s incs tx).1 ≠ .ok) :
+    (runTx env s incs tx).2.1.absCh = s.absCh ∧ (runTx env s incs tx).2.1.cached = s.cached ∧
+    ∀ u, limitCheck genLimitFacts (runTx env s incs tx).2.1 u = limitCheck genLimitFacts s u := by
+  rw [C06.c06_tx env s incs tx h]
+  exact ⟨rfl, rfl, fun _ => rfl⟩
+
+/-- the same for an executed governance proposal whose message list fails at any position -/
+theorem c05_failed_proposal_not_consumed (env : Env) (sg : Signer) (ms : List Msg) (rest : List (List Msg)) (s : App)
+    (acc : List TxR) (hfail : ∀ s', handleList env.lim s sg ms ≠ .ok s') :
+    (runGov env sg (ms :: rest) s acc).2 = (runGov env sg rest s acc).2 :=
+  C06.c06_gov_proposal env sg ms rest s acc hfail
 
 end PoaVerif.Props.C05
